@@ -190,9 +190,11 @@ def handle (tag : String) (args : List String) (obs : String) : String :=
     | some reqs, some s =>
       let full := (reqs.map reqBytes).flatten
       -- `cut<N>`: the client sends only the first N bytes and goes away
-      let all := if _sched.startsWith "cut" then full.take ((_sched.drop 3).toString.toNat?.getD full.length) else full
+      -- `busy<N>`: the same, while every thread of the handler pool is taken by other connections
+      let all := if _sched.startsWith "cut" then full.take ((_sched.drop 3).toString.toNat?.getD full.length)
+        else if _sched.startsWith "busy" then full.take ((_sched.drop 4).toString.toNat?.getD full.length) else full
       let cfg : Cfg := { smallBodyLen := s, cacheDir := cache != "0", fs := { createFails := cache == "2" } }
-      let (c, calls1) := handleConn false C05.simpleUrl cfg (handlerOf reqs) 64 { input := all } []
+      let (c, calls1) := handleConn false C05.simpleUrl cfg (handlerOf reqs) (max 64 (reqs.length + 8)) { input := all } []
       -- `par3`: three connections send the same bytes; the merged call log is compared sorted
       let calls := calls1
       -- The server closed while client bytes were still unread: the kernel answers with a reset, and a
@@ -215,7 +217,9 @@ def handle (tag : String) (args : List String) (obs : String) : String :=
           | .getBody m => if (r.framing == "u" || r.framing == "v") && r.body.length > m && cache != "0" then " early=1" else " early=0"
           | _ => " early=0"
         | _ => " early=0"
-      let model := s!"calls={"|".intercalate callStrs} wire={encBytes shownWire} files={c.live.length}{earlyS}"
+      -- `linger` / `busy`: files still present once a request has been answered (connection still open) or abandoned
+      let outlivedS := if _sched == "linger" || _sched.startsWith "busy" then s!" outlived={c.live.length}" else ""
+      let model := s!"calls={"|".intercalate callStrs} wire={encBytes shownWire} files={c.live.length}{earlyS}{outlivedS}"
       let verdict :=
         if obs == "PANIC" then "FAIL:panic:" else
         match obsGet obs "calls", obsWire, obsGet obs "files" with
@@ -225,8 +229,9 @@ def handle (tag : String) (args : List String) (obs : String) : String :=
           let parOk := _sched != "par3" || obsCalls == callStrs
           let obsCalls := if _sched == "par3" then calls1.map showCall else obsCalls
           let fails := (if parOk then [] else ["concurrent-connections-interfere"]) ++
-            exchangeCheck reqs obsCalls (if tailLost then c.wire else wire) (_sched.startsWith "cut") ++
+            exchangeCheck reqs obsCalls (if tailLost then c.wire else wire) (_sched.startsWith "cut" || _sched.startsWith "busy") ++
             (if files == "0" then [] else ["temp-file-left-behind"]) ++
+            (if outlivedS != "" && obsGet obs "outlived" != some "0" then ["temp-file-outlives-its-request"] else []) ++
             (if _sched == "hold" && earlyS != "" && obsGet obs "early" != some (earlyS.drop 7).toString then
                (if earlyS == " early=1" then ["over-limit-body-read-past-limit"] else ["answered-before-end-of-body"]) else []) ++ (if tag == "c09" then sizeCheck s (cache != "0") reqs obsCalls wire else [])
           if fails.isEmpty then (if tailLost then "ok-tail-lost-to-reset" else "ok") else "FAIL:" ++ ",".intercalate fails ++ ":"
